@@ -65,6 +65,7 @@ func TestC02HashIncremental(t *testing.T) {
 		t.Fatalf("x25(\"123456789\") = %#04x, catalogue check value of CRC-16/MCRF4XX is 0x6f91", h0.Sum16())
 	}
 	evid.Check(t, rec, evid.N(60000, 300000), func(t *rapid.T) {
+		readBufSize = 512
 		n := rapid.OneOf(rapid.IntRange(0, 600), rapid.IntRange(0, 20)).Draw(t, "n")
 		data := gen.Bytes(t, n, "data")
 		want := ref.CRC(data)
@@ -145,6 +146,7 @@ func TestC02Gate(t *testing.T) {
 	dpool := pool(t)
 	maxFlipLen := 80
 	evid.Check(t, rec, evid.N(5000, 15000), func(t *rapid.T) {
+		drawBufSize(t)
 		di := drawDialect(t, dpool)
 		f, lay, _ := validFrame(t, di, gen.FrameOpts{}, nil)
 		data := f.Bytes()
